@@ -97,10 +97,15 @@ PROPS = {
     "C15": {"lean": "ICG.Props.C15", "streams": [("corr_normalize", "C15")], "quick_s": 40, "thorough_s": 600,
             "rule": ("exact sub-stream: integer/dyadic SA games (closure, negative / non-zero singletons, additive, nearly additive) with power-of-two (or 0) surplus, n=1..5, and integer "
                      "matrices with junk below the diagonal as GraphCooperativeGame and as its table; normalize_game / denormalize_game compared as strings with the model incl. the closed "
-                     "form; ~12% malformed (partial tables -> err:value, short singleton info -> err:index). float sub-stream: every live GENERATORS key except convex, n=3..5, tolerance "
-                     "1e-9, oracle = property clauses, closed form compared except where |surplus| <= 1e-9*scale. non-trivial = n>=3, a non-zero singleton (or >=2 distinct graph weights), "
-                     "non-zero surplus, >=3 distinct normalised values; distinct by (representation, values)"),
-            "assumptions": ["float rounding is outside the theorems", "'superadditive again' on floats uses absolute tolerance 1e-9, not the library's atol=0 predicate"]},
+                     "form; ~12% malformed (partial tables -> err:value, short singleton info -> err:index). tolerance-window sub-stream: v = Σa_i + s·u (dyadic mixtures of unanimity games), "
+                     "singletons of magnitudes 1..2^46, s at 0 / deep / just below / last float ≤ / first float > / just above / far above Fraction(1e-9)·|Σ singletons|; only float64-exact "
+                     "cases; string comparison of normalize / closed form / denormalize; oracle with no tolerance. float sub-stream: every live GENERATORS key except convex, n=3..5, "
+                     "tolerance 1e-9, oracle = property clauses. non-trivial = n>=3, a non-zero singleton (or >=2 distinct graph weights), non-zero surplus, >=3 distinct normalised values; "
+                     "distinct by (representation, values)"),
+            "assumptions": ["float rounding is outside the theorems; 'superadditive again' on floats uses absolute tolerance 1e-9, not the library's atol=0 predicate",
+                            "a game with 0 < w(N) ≤ 1e-9·|Σ singletons| is treated as additive by the repaired code: its normal form is 0 and de-normalising restores it only to within "
+                            "1e-9·|Σ singletons| (ICG.C15.window_behaviour, denormalize_window, denormalize_normalize_bound)",
+                            "graph form = tabulated form is claimed for superadditive graph games"]},
     "C10": {"lean": "ICG.Props.C10", "streams": [("corr_generators", "C10")], "quick_s": 40, "thorough_s": 600,
             "rule": ("every live GENERATORS key except convex x n=3..5 (quick) / 3..8 (thorough) x seeds from VERIF_SEED; family recognised by registered function + partial keywords "
                      "(unknown -> notes, oracle only); recording Generator subclass (xos*: twin replay; graph families: exposed weight matrix); exact comparison for integer/unit/max-only "
